@@ -9,6 +9,7 @@
 -/
 import Rbgp.Enc.Proofs
 import Rbgp.Enc.Proofs.AsPath
+import Rbgp.Enc.Proofs.NegAgree
 namespace Rbgp.Enc.Props
 open Rbgp.Enc Rbgp.Enc.Spec
 
@@ -18,6 +19,20 @@ open Rbgp.Enc Rbgp.Enc.Spec
     arithmetic profile. -/
 theorem check_run_ok (p : Profile) (i : Input) (h : Dom i = true) : check i (run p i) = .ok :=
   Rbgp.Enc.check_run_ok p i h
+
+/-- **The two codecs agree with the RFC reading of the capability sets** (RFC 5492 / 7911 / 8950): for simple
+    capability sets and a family with the MP capability on both sides, the family is in the peer's table, the
+    encoder's add-path-tx is "local can send, remote can receive" and the extended-next-hop flag is the RFC 8950
+    one.  (This is why `Dom` needs no hypothesis about `negotiate`.) -/
+theorem negotiate_agrees (i : Input) (f : Fam) (hl : simpleCaps i.loc = true) (hr : simpleCaps i.rem = true)
+    (hf : famNegotiated i f = true) : negAgree i f = true :=
+  negAgree_of i f hl hr hf
+
+/-- the decoder's codec is the encoder's mirror image: same frame limit, same AS width, rx = the sender's tx -/
+theorem codecs_mirror (l r : List Cap) (f : Fam) (h : (rxOf (negotiate r l) f).isSome = true) :
+    (negotiate r l).maxLen = (negotiate l r).maxLen ∧ (negotiate r l).twoByte = (negotiate l r).twoByte ∧
+    rxOf (negotiate r l) f = some ((negotiate l r).addpathTx f) :=
+  ⟨negotiate_maxLen_comm l r, negotiate_twoByte_comm l r, (codecPair l r f h).hrx⟩
 
 /-! ## property-level theorems -/
 
